@@ -156,7 +156,7 @@ def build_source(items, prune=False):
         prelude = "\n".join("    " + d for n, d in PRELUDE_DECLS if n in need)
     else:
         prelude = "\n".join("    " + d for _, d in PRELUDE_DECLS)
-    return "#[diplomat::bridge]\nmod ffi {\n%s\n%s\n}\n" % (prelude, body_txt)
+    return "#[diplomat::bridge]\nmod ffi {\n%s%s\n}\n" % (prelude + "\n" if prelude else "", body_txt)
 
 
 def item_contexts(it):
@@ -921,7 +921,9 @@ def fam_f(b, depth):
         b.add("f", types=tys, m=method(b.mname(), owner=name, selff="&self", params=[("x", t), ("w", WRITE)]), pos="terminus:&self")
     ctor_alpha = [P("u8"), P("bool"), P("f64"), P("DiplomatChar"), N("En"), N("St"), N("Nest"), N("SB"), OP_REF, ("opt", OP_REF), ("ref", False, ("str", "str")),
                   ("ref", False, ("str", "DiplomatStr16")), ("ref", False, ("slice", "u8")), ("ref", False, ("slice", "f64")), ("opt", P("u8")), ("opt", N("St")),
-                  ("opt", ("ref", False, ("str", "str"))), ("box", ("slice", "u8")), ("ffi", "DiplomatSlice<'a, DiplomatStrSlice<'a>>", "bslice")]
+                  ("box", ("slice", "u8")), ("ffi", "DiplomatSlice<'a, DiplomatStrSlice<'a>>", "bslice")]
+    # (Option<&str> / Option<&[T]> constructor parameters are left out here: helper methods cannot be reduced, and the same shapes are
+    # enumerated as focus parameters by family (a) and by the static termini above)
     for t in ctor_alpha:
         for fallible in (False, True):
             name, tys, ft = demo_owner([("a", t)], fallible)
